@@ -205,34 +205,48 @@ def gen_scenarios(family, n, seed):
 
 
 # ------------------------------------------------------------------ execution + validation
-def run_scenarios(sc, binary, scs, tag, procs=8, test='TestVerifConnScenarios'):
-    res = {}
-    size = (len(scs) + procs - 1) // procs if scs else 1
-    ps = []
-    for c in range(procs):
-        part = scs[c * size:(c + 1) * size]
-        if not part:
-            continue
+def run_scenarios(sc, binary, scs, tag, procs=8, test='TestVerifConnScenarios', chunk=1500):
+    """Run the scenarios in harness processes: at most `procs` at a time, at most `chunk` scenarios per process (so that a process never
+    runs into the test binary's own time limit however large the tier is). A process that dies in the middle of a scenario is reported
+    with that scenario (`crashed`); one that merely ran out of time is an infrastructure failure, not a verdict."""
+    from concurrent.futures import ThreadPoolExecutor
+    res, crashed, slow = {}, [], []
+    if not scs:
+        return res, crashed
+    size = min(chunk, (len(scs) + procs - 1) // procs)
+    parts = [scs[i:i + size] for i in range(0, len(scs), size)]
+
+    def one(args):
+        c, part = args
         inp, outp = sc.path('cin_%s_%d.json' % (tag, c)), sc.path('cout_%s_%d.ndjson' % (tag, c))
         json.dump({'scenarios': part}, open(inp, 'w'))
         env = dict(vlib.GOENV, VERIF_IN=inp, VERIF_OUT=outp)
-        p = subprocess.Popen([binary, '-test.run', '^%s$' % test, '-test.count=1', '-test.timeout', '900s'],
+        p = subprocess.Popen([binary, '-test.run', '^%s$' % test, '-test.count=1', '-test.timeout', '1500s'],
                              cwd=sc.path('repo'), env=env, stdout=subprocess.PIPE, stderr=subprocess.STDOUT, text=True)
-        ps.append((p, outp, part))
-    crashed = []
-    for p, outp, part in ps:
         try:
-            o, _ = p.communicate(timeout=1000)
+            o, _ = p.communicate(timeout=1600)
         except subprocess.TimeoutExpired:
             p.kill()
-            o = 'timeout'
+            o = 'test timed out (killed by the driver)'
         got = [json.loads(l) for l in open(outp)] if os.path.exists(outp) else []
-        for r in got:
-            res[r['scenario']] = r
-        if len(got) != len(part):
-            done = {r['scenario'] for r in got}
-            missing = [s for s in part if s['id'] not in done]
-            crashed.append((missing[0], o[-3000:]))
+        os.remove(inp)
+        if os.path.exists(outp):
+            os.remove(outp)
+        return part, got, o
+
+    with ThreadPoolExecutor(max_workers=procs) as ex:
+        for part, got, o in ex.map(one, list(enumerate(parts))):
+            for r in got:
+                res[r['scenario']] = r
+            if len(got) != len(part):
+                done = {r['scenario'] for r in got}
+                missing = [s for s in part if s['id'] not in done]
+                if 'test timed out' in o:
+                    slow.append(missing[0]['id'])
+                else:
+                    crashed.append((missing[0], o[-3000:]))
+    if slow:
+        raise vlib.Inconclusive('harness process ran out of time (%d processes, first unfinished scenario %s)' % (len(slow), slow[0]))
     return res, crashed
 
 
@@ -414,6 +428,25 @@ def main(pid, tier, replay_path=None):
     try:
         with vlib.Scratch('conn') as sc:
             binary = vlib.build_harness(sc, '.', instrumented_pool=True)
+            race_cov = {}
+            if pid == 'C06' and (not replay_path or json.load(open(replay_path)).get('latereq_race')):
+                # free-running: SetOnRequest against the poller's first delivery (a window without a schedule point)
+                import subprocess
+                outp = sc.path('latereq.json')
+                env = dict(vlib.GOENV, VERIF_OUT=outp, VERIF_BUDGET_MS=str(4000 if tier == 'quick' else 60000))
+                p_ = subprocess.run([binary, '-test.run', '^TestVerifLateSetOnRequestRace$', '-test.count=1', '-test.timeout', '300s'], cwd=sc.path('repo'), env=env,
+                                    stdout=subprocess.PIPE, stderr=subprocess.STDOUT, text=True, timeout=400)
+                if not os.path.exists(outp):
+                    raise vlib.Inconclusive('SetOnRequest race run failed: ' + p_.stdout[-600:])
+                lr = json.load(open(outp))
+                if lr['detail'].startswith('harness:'):
+                    raise vlib.Inconclusive('SetOnRequest race run: ' + lr['detail'])
+                race_cov = {'late_setonrequest_race_rounds': lr['rounds'], 'late_setonrequest_race_stranded': lr['stranded']}
+                if lr['stranded']:
+                    violations.append(vlib.save_replay(pid, '%s_latereq' % tier, {'property': pid, 'rule': 'C06.input_stranded_without_handler', 'latereq_race': True, 'result': lr}))
+                    vlib.log('violation C06.input_stranded_without_handler in the free-running SetOnRequest race: ' + lr['detail'])
+                if replay_path:
+                    vlib.finish(pid, violations, [])
             if replay_path:
                 rp = json.load(open(replay_path))
                 scs = [rp['scenario']]
@@ -539,6 +572,7 @@ def main(pid, tier, replay_path=None):
                    'explanation': 'real connection on a socketpair with a manual poller under the controlled scheduler (every locker/FDOperator/trigger/'
                                   'length primitive is a schedule point); each execution is a recorded event trace validated by TLC against ConnObs.tla; '
                                   'states/transitions are those of the trace-validation run (one state per event)'}
+            cov.update(race_cov)
             if fp_cov:
                 cov.update(fp_cov)
                 cov['trace_validation_states'] = cov['states']
